@@ -183,7 +183,7 @@ impl Property for C20 {
     }
     fn rule(&self) -> &'static str {
         "the finite set of macro arms is enumerated completely (88 register_*! / register_*_with_registry! arm x trailing-comma \
-         variants, 8 labels!, 6 opts!, 6 histogram_opts! variants) and every case drives every arm with one generated input: a \
+         variants, 8 labels!, 8 opts! (0-3 label maps of generated sizes 0-5 over 5 keys, so later maps re-define keys of earlier ones), 6 histogram_opts! variants) and every case drives every arm with one generated input: a \
          unique valid name, help text, 0-2 constant labels, 1-3 label names, an accepted bucket list, and a registry without / with \
          prefix and common labels. Oracle per (arm, input): Ok(handle) whose descriptor equals the explicit constructor's field by \
          field (and whose collected bucket bounds equal the expected ones); a unique update through the handle is visible in gather() \
@@ -250,22 +250,32 @@ impl Property for C20 {
                     }
                 }
             }
-            let m1: HashMap<&str, &str> = [("a", vals[0]), ("b", "1")].into_iter().collect();
-            let m2: HashMap<&str, &str> = [("b", "2"), ("c", vals[0])].into_iter().collect();
-            for n in 0..3 {
+            // label maps of generated sizes over a small key pool, so that later maps re-define keys of earlier ones
+            // (the later argument wins, as with Opts::const_labels applied to the merged map)
+            let keys = ["a", "b", "c", "d", "e"];
+            let mvals = ["1", "2", vals[0], ""];
+            let mut maps: Vec<HashMap<&str, &str>> = vec![];
+            for _ in 0..3 {
+                let mut m = HashMap::new();
+                for _ in 0..src.below(6) {
+                    m.insert(keys[src.below(keys.len())], mvals[src.below(mvals.len())]);
+                }
+                maps.push(m);
+            }
+            for n in 0..4 {
                 for comma in [false, true] {
-                    let got = opts_arm(n, comma, base, &help, &m1, &m2);
+                    let got = opts_arm(n, comma, base, &help, &maps[0], &maps[1], &maps[2]);
                     let mut want: HashMap<String, String> = HashMap::new();
-                    if n >= 1 {
-                        want.extend(m1.iter().map(|(k, v)| (k.to_string(), v.to_string())));
-                    }
-                    if n >= 2 {
-                        want.extend(m2.iter().map(|(k, v)| (k.to_string(), v.to_string())));
+                    for m in maps.iter().take(n) {
+                        want.extend(m.iter().map(|(k, v)| (k.to_string(), v.to_string())));
                     }
                     if got.name != base || got.help != help || got.const_labels != want || !got.namespace.is_empty() || !got.subsystem.is_empty() || !got.variable_labels.is_empty() {
-                        return fail("opts-macro-differs", format!("opts! with {} label maps (comma {}) gave {:?}, expected name {:?} help {:?} labels {:?}", n, comma, got, base, help, want));
+                        return fail("opts-macro-differs", format!("opts! with the first {} of the label maps {:?} (comma {}) gave {:?}, expected name {:?} help {:?} labels {:?}", n, maps, comma, got, base, help, want));
                     }
                 }
+            }
+            if maps.windows(2).any(|w| w[1].len() > w[0].len() && w[1].iter().any(|(k, v)| w[0].get(k).map_or(false, |o| o != v))) {
+                rep.class("opts!:larger-later-map-redefines-a-key");
             }
             for n in 0..3 {
                 for comma in [false, true] {
